@@ -37,7 +37,7 @@ def cases(tier, seed):
     rng = np.random.default_rng(subseed("C04", seed))
     nrun = 2500 if tier == "quick" else 80000
     for i in range(nrun):
-        ps = gen.rand_spec(rng, FAMS, nmax=6, boxes=("none", "mixed", "boxed", "lower", "narrow", "nonneg", "unit"), starts=("interior", "face", "vertex"))
+        ps = gen.rand_spec(rng, FAMS, nmax=6, boxes=("none", "mixed", "boxed", "lower", "narrow", "nonneg", "unit", "boxed_degenerate"), starts=("interior", "face", "vertex"))
         if ps["family"] == "log_barrier":
             ps["box"] = gen.pick(rng, ["none", "none", "lower", "nonneg"])  # the domain x > 0 is enforced by inf values, not by the box
         cfg = {
